@@ -1,6 +1,14 @@
 import SJ.Props.C09
+import SJ.Props.TypedSrc
 #print axioms SJ.Props.C09.c09_slice_reader
 #print axioms SJ.Props.C09.c09_str_slice_ignored
 #print axioms SJ.Props.C09.c09_str_slice_value
 #print axioms SJ.Props.C09.c09_str_slice
 #print axioms SJ.Props.C09.c09_all_sources
+#print axioms SJ.Props.TypedSrc.c09_typed_slice_reader
+#print axioms SJ.Props.TypedSrc.c09_typed_slice_reader_class
+#print axioms SJ.Props.TypedSrc.c09_typed_slice_reader_ok
+#print axioms SJ.Props.TypedSrc.c09_typed_slice_reader_err
+#print axioms SJ.Props.TypedSrc.c09_typed_str_slice
+#print axioms SJ.Props.TypedSrc.c09_typed_all_sources
+#print axioms SJ.Props.TypedSrc.typed_within_input
